@@ -12,16 +12,22 @@ import common, genrun, tlc
 import base
 from base import main_loop, unique_schema_name
 
-SDL = """
+SDL_T = """
 scalar Sc
 directive @d on FIELD_DEFINITION
 interface P { n: String }
 type A implements P { n: String }
 type B implements P { n: String }
 type C implements P { n: String }
-type Query { v: String  sc: Sc  dv: String @d  p: P }
+input In { f: Int = %(k)d }
+enum E { COMMON  X%(k)d }
+type Query { v: String  sc: Sc  dv: String @d  p: P  q(i: In, e: E): String }
 type Subscription { ev: String }
 """
+
+
+def sdl_of(k):
+    return SDL_T % {"k": k}
 TYPES = ["A", "B", "C"]
 
 
@@ -43,6 +49,10 @@ def reg_a(t, k, sn):
     @t.Resolver("Query.p", **kw)
     async def rp(parent, args, ctx, info):
         return {"n": "n"}
+
+    @t.Resolver("Query.q", **kw)
+    async def rq(parent, args, ctx, info):
+        return "%s/%s" % ((args.get("i") or {}).get("f"), args.get("e"))
 
     @t.TypeResolver("P", **kw)
     def tr(result, ctx, info, abstract_type):
@@ -73,9 +83,10 @@ def reg_b(t, k, sn):
         yield {"ev": "E%d" % k}
 
 
-def probe(eng):
+def probe(eng, k):
     loop = main_loop()
     r = loop.run(eng.execute("{ v sc dv p { __typename } }"))
+    r2 = loop.run(eng.execute("query ($i: In, $e: E) { q(i: $i, e: $e) }", variables={"i": {}, "e": "X%d" % k}))
 
     async def first():
         agen = eng.subscribe("subscription { ev }")
@@ -87,11 +98,12 @@ def probe(eng):
     d = r.get("data") or {}
     return {"resolvers": d.get("v"), "scalars": d.get("sc"), "directives": d.get("dv"),
             "type_resolvers": (d.get("p") or {}).get("__typename"), "subscriptions": (s.get("data") or {}).get("ev"),
-            "errors": (r.get("errors") or []) + (s.get("errors") or [])}
+            "sdl": (r2.get("data") or {}).get("q"),
+            "errors": (r.get("errors") or []) + (s.get("errors") or []) + (r2.get("errors") or [])}
 
 
 def expected(kind, k):
-    return {"resolvers": "R%d" % k, "scalars": "S%d:x" % k, "directives": "y|D%d" % k, "type_resolvers": TYPES[k - 1], "subscriptions": "E%d" % k}[kind]
+    return {"resolvers": "R%d" % k, "scalars": "S%d:x" % k, "directives": "y|D%d" % k, "type_resolvers": TYPES[k - 1], "subscriptions": "E%d" % k, "sdl": "%d/X%d" % (k, k)}[kind]
 
 
 def run_history(steps, use_default_for=None, tag=""):
@@ -109,8 +121,8 @@ def run_history(steps, use_default_for=None, tag=""):
             reg_b(t, b, sn)
         else:
             kw = {} if sn is None else {"schema_name": sn}
-            engines[b] = main_loop().run(t.create_engine(SDL, **kw))
-    out = {b: probe(e) for b, e in engines.items()}
+            engines[b] = main_loop().run(t.create_engine(sdl_of(b), **kw))
+    out = {b: probe(e, b) for b, e in engines.items()}
     # forget the names (the registry is process-global and never shrinks by itself)
     try:
         from tartiflette.schema.registry import SchemaRegistry
